@@ -132,10 +132,19 @@ impl AwsChunkedStream {
                     prev_signature: seed_signature,
                 };
 
+                let mut is_final_chunk_received = false;
+                let mut decoded_length: usize = 0;
+
                 loop {
                     let meta = {
                         match Self::read_meta_bytes(body.as_mut(), prev_bytes, &mut buf).await {
-                            None => break,
+                            None => {
+                                // the upload is complete only after its signed zero-length chunk
+                                if is_final_chunk_received && decoded_length == decoded_content_length {
+                                    break;
+                                }
+                                return Err(AwsChunkedStreamError::Incomplete);
+                            }
                             Some(Err(e)) => return Err(AwsChunkedStreamError::Underlying(e)),
                             Some(Ok(remaining_bytes)) => prev_bytes = remaining_bytes,
                         }
@@ -161,6 +170,9 @@ impl AwsChunkedStream {
                         None => return Err(AwsChunkedStreamError::SignatureMismatch),
                         Some(signature) => ctx.prev_signature = signature,
                     }
+
+                    is_final_chunk_received = meta.size == 0;
+                    decoded_length = decoded_length.saturating_add(meta.size);
 
                     for bytes in data {
                         y.yield_ok(bytes).await;
